@@ -82,6 +82,8 @@ def gen_plan(prop, run_seed, tier):
     n = w.choice([0, 1, 2, 3, 3, 4, 5, 6, 7, 8, 10, 12, 14])
     if w.random() < 0.04:  # more samples (and pairs) than any plausible block size
         n = w.choice([24, 34])
+    elif w.random() < 0.012:  # indices beyond what one (signed) byte holds
+        n = w.choice([131, 140])
     pairs = n * (n - 1) // 2
     n_chunks = w.choice([1, 2, 3, max(1, pairs // 2), max(1, pairs - 1), max(1, pairs), pairs + 1, pairs + 3, w.randint(1, max(2, pairs + 2))])
     if n > 14:
